@@ -164,8 +164,5 @@ def oracle_hiding(cls, pw, ground=False):
 
 
 ORACLES = dict(hiding=oracle_hiding)
-try:
-    from checks import realtier as _rt
-    ORACLES.update(_rt.ORACLES)
-except Exception:
-    pass
+from checks.realtier import rt_conform, ORACLES as _RT      # noqa: E402
+ORACLES.update(_RT)
